@@ -138,8 +138,8 @@ class Listing:
                 out.append(Tok("L", name=ln["l"], bid=None, patch=inv,
                                pglobal=not ln.get("temp", False)))
                 continue
-            if "raw" in ln:
-                continue      # directive without bytes (e.g. CFI)
+            if "raw" in ln or "d" in ln:
+                continue      # directive without bytes (CFI, alignment)
             if ln.get("k") == "bytes":
                 out.append(Tok("D", data=bytes.fromhex(ln["hex"]),
                                uid=("p", inv, k), patch=inv, code=False))
